@@ -22,6 +22,7 @@ type step struct {
 	Wait   bool        `json:"wait,omitempty"` // wait (briefly) for a response before going on
 	NoCSeq bool        `json:"no_cseq,omitempty"`
 	CSeq   string      `json:"cseq,omitempty"` // override
+	Conn   int         `json:"conn,omitempty"` // multi-connection conversations: connection index (kind closeconn closes it)
 }
 
 type conversation struct {
@@ -31,6 +32,8 @@ type conversation struct {
 	Steps []step   `json:"steps"`
 	// TruncateAt >= 0: only that many bytes of the rendered stream are sent, then silence
 	TruncateAt int `json:"truncate_at"`
+	// Multi: the steps are spread over several control connections (multi.go)
+	Multi bool `json:"multi,omitempty"`
 }
 
 const sdpTwo = "v=0\r\no=- 0 0 IN IP4 127.0.0.1\r\ns=x\r\nc=IN IP4 0.0.0.0\r\nt=0 0\r\n" +
